@@ -262,6 +262,8 @@ static CO_ERR usr_write(CO_OBJ *o, CO_NODE *n, void *b, uint32_t s)
     USRO *u = (USRO *)o->Data;
     if (u->wrerr) { if (u->abortc) COObjTypeUserSDOAbort(o, n, u->abortc); return (CO_ERR)u->wrerr; }
     memcpy(u->val, b, s > 8 ? 8 : s);
+    /* a "reset device" object: writing it makes the application reset the communication (abort code field C0DE0082h) or the node (..81h) */
+    if (u->abortc == 0xC0DE0082u || u->abortc == 0xC0DE0081u) { printf("cb usrreset %u\n", u->abortc & 0xFF); CONmtReset(&n->Nmt, (u->abortc & 1) ? CO_RESET_NODE : CO_RESET_COM); }
     return CO_ERR_NONE;
 }
 static const CO_OBJ_TYPE UsrType = { usr_size, usr_init, usr_read, usr_write, 0 };
